@@ -888,7 +888,7 @@ func (x *exec) ghostAfterCall(st *State, ins *ssa.Call, res Val) {
 	name := x.callDesc(ins)
 	ord := x.callOrdinal(fn, ins)
 	for _, g := range ct.Ghost {
-		if g.AtReturn || g.Callee != name || g.Ord != ord {
+		if g.AtReturn || g.AtSend || g.Callee != name || g.Ord != ord {
 			continue
 		}
 		nq := 0
@@ -948,16 +948,132 @@ func (x *exec) execGhost(st *State, g *GhostStmt, se *specEnv) {
 		se.fail("left-hand side is not ghost state")
 	}
 	cur := x.getHeap(st, l.key, l.sort)
+	// a guarded assignment (select arm): the location keeps its value unless the guard holds
+	guarded := func(old Term) Term {
+		if se.guard == nil {
+			return rhs
+		}
+		return Ite(*se.guard, rhs, old)
+	}
 	switch {
 	case l.ghostVar && key == nil:
-		x.setHeap(st, l.key, rhs, nil)
+		x.setHeap(st, l.key, guarded(cur), nil)
 	case l.ghostVar:
-		x.setHeap(st, l.key, Store(cur, *key, rhs), nil)
+		x.setHeap(st, l.key, Store(cur, *key, guarded(Select(cur, *key))), nil)
 	case l.obj == nil:
 		se.fail("left-hand side names every object's field")
 	case key == nil:
-		x.setHeap(st, l.key, Store(cur, *l.obj, rhs), l.obj)
+		x.setHeap(st, l.key, Store(cur, *l.obj, guarded(Select(cur, *l.obj))), l.obj)
 	default:
-		x.setHeap(st, l.key, Store(cur, *l.obj, Store(Select(cur, *l.obj), *key, rhs)), l.obj)
+		x.setHeap(st, l.key, Store(cur, *l.obj, Store(Select(cur, *l.obj), *key, guarded(Select(Select(cur, *l.obj), *key)))), l.obj)
+	}
+}
+
+// chanSites lists the send (or receive) sites of fn in source order: plain send statements /
+// receive expressions and the corresponding arms of select statements.
+type chanSite struct {
+	pos  token.Pos
+	ins  ssa.Instruction
+	arm  int // index of the select state, -1 for a plain operation
+	recv int // for select receives: index among the receive states (position in the result tuple)
+}
+
+func chanSites(fn *ssa.Function, send bool) []chanSite {
+	var out []chanSite
+	for _, b := range fn.Blocks {
+		for _, in := range b.Instrs {
+			switch v := in.(type) {
+			case *ssa.Send:
+				if send {
+					out = append(out, chanSite{pos: v.Pos(), ins: v, arm: -1})
+				}
+			case *ssa.UnOp:
+				if !send && v.Op == token.ARROW {
+					out = append(out, chanSite{pos: v.Pos(), ins: v, arm: -1})
+				}
+			case *ssa.Select:
+				nr := 0
+				for i, s := range v.States {
+					if s.Dir == types.SendOnly && send {
+						out = append(out, chanSite{pos: s.Pos, ins: v, arm: i})
+					}
+					if s.Dir == types.RecvOnly {
+						if !send {
+							out = append(out, chanSite{pos: s.Pos, ins: v, arm: i, recv: nr})
+						}
+						nr++
+					}
+				}
+			}
+		}
+	}
+	sort.Slice(out, func(a, b int) bool { return out[a].pos < out[b].pos })
+	return out
+}
+
+// ghostAtChan runs the ghost assignments anchored at send sites and assumes the channel invariants
+// declared for receive sites (directives `ghostcode at send K` and `recvassume K`). idx is the arm
+// chosen by a select (nil for plain operations); vals are the values received by the select's arms.
+func (x *exec) ghostAtChan(st *State, in ssa.Instruction, idx *Term, recvVals []Val) {
+	if len(st.frames) == 0 {
+		return
+	}
+	fn := st.top().fn
+	ct := x.e.Specs.Contracts[CanonKey(fn)]
+	if ct == nil || (len(ct.Ghost) == 0 && len(ct.RecvAssume) == 0) {
+		return
+	}
+	for ord, site := range chanSites(fn, true) {
+		if site.ins != in {
+			continue
+		}
+		for _, g := range ct.Ghost {
+			if !g.AtSend || g.Ord != ord+1 {
+				continue
+			}
+			nq := 0
+			se := &specEnv{x: x, pkg: x.e.TPkg[ct.Pkg], vars: map[string]specVal{}, st: st, cur: st, frame: st.top(), nq: &nq, what: "ghostcode " + g.Src}
+			if idx != nil && site.arm >= 0 {
+				gd := Eq(*idx, IntLit(int64(site.arm)))
+				se.guard = &gd
+			}
+			x.execGhost(st, g, se)
+		}
+	}
+	for ord, site := range chanSites(fn, false) {
+		if site.ins != in {
+			continue
+		}
+		for _, ra := range ct.RecvAssume {
+			if ra.Ord != ord+1 {
+				continue
+			}
+			var val Val
+			var et types.Type
+			switch v := in.(type) {
+			case *ssa.UnOp:
+				val = st.top().env[v]
+				if tv, ok := val.(TupleV); ok {
+					val = tv[0]
+				}
+				et = v.X.Type().Underlying().(*types.Chan).Elem()
+			case *ssa.Select:
+				if site.recv < len(recvVals) {
+					val = recvVals[site.recv]
+				}
+				et = v.States[site.arm].Chan.Type().Underlying().(*types.Chan).Elem()
+			}
+			if val == nil {
+				continue
+			}
+			nq := 0
+			se := &specEnv{x: x, pkg: x.e.TPkg[ct.Pkg], vars: map[string]specVal{"recv": {V: val, T: et}}, st: st, cur: st, frame: st.top(), nq: &nq, what: "recvassume " + ra.Clause.Src}
+			fact := se.evalBool(ra.Clause.Expr)
+			if idx != nil && site.arm >= 0 {
+				fact = Implies(Eq(*idx, IntLit(int64(site.arm))), fact)
+			}
+			st.assume(fact)
+			x.ctx.note("ASSUMED channel invariant (directive recvassume, T-go): " + ra.Clause.Src)
+		}
 	}
 }
